@@ -48,7 +48,7 @@ fn conv(kind: &str, m: u64) -> Option<u64> {
         "odd" => (m % 2 == 1).then_some(m),
         "none" => None,
         "dbl" => Some(2 * m),
-        "echo" => Some(m),
+        "echo" | "dropper" => Some(m),
         _ => (m % 3 == 0).then_some(m + 1000),
     }
 }
@@ -60,6 +60,8 @@ static CALLS: Mutex<Vec<(u64, u64)>> = Mutex::new(Vec::new());
 /// key of the (single) subscription of the case made through `OutputPortSubscriberTrait`
 /// publications made from inside a converter call (statistics)
 static REPUBS: std::sync::atomic::AtomicU64 = std::sync::atomic::AtomicU64::new(0);
+/// port drops performed from inside a converter call (statistics)
+static MIDDROPS: std::sync::atomic::AtomicU64 = std::sync::atomic::AtomicU64::new(0);
 static FROM_KEY: std::sync::atomic::AtomicU64 = std::sync::atomic::AtomicU64::new(u64::MAX);
 
 /// the recorder actors' message: `(subscription key, converted value)`
@@ -116,9 +118,13 @@ fn show_list(v: &[u64]) -> String {
     }
 }
 
+type PortCell = Arc<Mutex<Option<Arc<OutputPort<u64>>>>>;
+
 struct World {
     ctl: Arc<ractor::verif::Controller>,
-    port: Option<Arc<OutputPort<u64>>>,
+    /// the only strong handle of the port; a `dropper` converter shares the cell and empties it
+    /// from inside a converter call
+    port: PortCell,
     actors: Vec<(ActorRef<RMsg>, Received)>,
     /// gates of the actors still held in `pre_start`
     gates: Vec<Option<tokio::sync::oneshot::Sender<()>>>,
@@ -157,7 +163,7 @@ impl World {
         let port = Arc::new(OutputPort::<u64>::default());
         CALLS.lock().unwrap().clear();
         FROM_KEY.store(u64::MAX, std::sync::atomic::Ordering::SeqCst);
-        World { ctl, port: Some(port), actors, gates, actor_tasks: vec![], tasks: Default::default(), npub: 0, last_grant: Default::default() }
+        World { ctl, port: Arc::new(Mutex::new(Some(port))), actors, gates, actor_tasks: vec![], tasks: Default::default(), npub: 0, last_grant: Default::default() }
     }
 
     /// subscriber actors are not under test: whenever one of their (gated) loops can run, it runs
@@ -181,7 +187,7 @@ impl World {
 
     #[cfg(not(feature = "outport-v2"))]
     fn v1_counts(&self) -> String {
-        let (h, f, r) = self.port.as_ref().unwrap().verif_subscriptions();
+        let (h, f, r) = self.port.lock().unwrap().as_ref().unwrap().verif_subscriptions();
         format!("held={h} fin={f} rx={r}")
     }
 
@@ -211,7 +217,7 @@ impl World {
         }
         let c = CALLS.lock().unwrap().clone();
         st.add("converter_calls", c.len() as u64);
-        if self.port.is_none() && rounds > 0 {
+        if self.port.lock().unwrap().is_none() && rounds > 0 {
             st.bump("grant_after_drop_ran");
             st.add("converter_calls_after_drop", c.len() as u64);
         }
@@ -236,14 +242,16 @@ impl World {
         match w.as_slice() {
             ["pub", m] => {
                 st.bump("pub");
-                let Some(port) = self.port.as_ref() else { return "closed".into() };
+                let guard = self.port.lock().unwrap();
+                let Some(port) = guard.as_ref() else { return "closed".into() };
                 self.npub += 1;
                 port.send(m.parse().unwrap());
                 "ok".into()
             }
             ["drop"] => {
                 st.bump("drop");
-                if let Some(p) = self.port.take() {
+                let taken = self.port.lock().unwrap().take();
+                if let Some(p) = taken {
                     assert_eq!(Arc::strong_count(&p), 1, "the harness holds the only handle");
                     drop(p);
                 }
@@ -255,12 +263,18 @@ impl World {
                 let a: usize = actor.parse().unwrap();
                 let kind = kind.to_string();
                 let before = self.ctl.len();
-                let Some(port) = self.port.as_ref() else { return "closed".into() };
+                let guard = self.port.lock().unwrap();
+                let Some(port) = guard.as_ref() else { return "closed".into() };
                 let weak = Arc::downgrade(port);
                 let echo = kind == "echo";
                 if echo {
                     st.bump("sub_echo");
                 }
+                let dropper = kind == "dropper";
+                if dropper {
+                    st.bump("sub_dropper");
+                }
+                let cell = self.port.clone();
                 if kind == "from" {
                     // the public trait-object route: `Box<dyn OutputPortSubscriberTrait<u64>>`
                     if FROM_KEY.load(std::sync::atomic::Ordering::SeqCst) != u64::MAX {
@@ -280,9 +294,19 @@ impl World {
                             REPUBS.fetch_add(1, std::sync::atomic::Ordering::SeqCst);
                         }
                     }
+                    if dropper && m < ECHO_BASE && m % 8 == 4 {
+                        // the port is dropped from inside the converter call = in the middle of the poll
+                        let taken = cell.lock().unwrap().take();
+                        if let Some(p) = taken {
+                            assert_eq!(Arc::strong_count(&p), 1);
+                            drop(p);
+                            MIDDROPS.fetch_add(1, std::sync::atomic::Ordering::SeqCst);
+                        }
+                    }
                     conv(&kind, m).map(|o| RMsg(key, o))
                 });
                 }
+                drop(guard);
                 #[cfg(not(feature = "outport-v2"))]
                 {
                     assert_eq!(self.ctl.len(), before + 1, "subscribe spawns exactly one forwarding task");
@@ -331,7 +355,7 @@ impl World {
                     Some(id) => {
                         let r = self.grant(id, st).await;
                         #[cfg(not(feature = "outport-v2"))]
-                        let r = if self.port.is_some() { format!("{r} {}", self.v1_counts()) } else { r };
+                        let r = if self.port.lock().unwrap().is_some() { format!("{r} {}", self.v1_counts()) } else { r };
                         r
                     }
                 }
@@ -363,7 +387,8 @@ impl World {
             }
         }
         // let every gated task run to its end so nothing stays parked forever
-        self.port = None;
+        let last = self.port.lock().unwrap().take();
+        drop(last);
         for t in self.ctl.tasks() {
             for _ in 0..200 {
                 if t.is_done() {
@@ -463,7 +488,7 @@ fn gen_case(rng: &mut Rng, n: u64) -> Vec<String> {
         } else if k < 50 || keys.is_empty() {
             let key = keys.len() as u64;
             if echo_case && rng.chance(1, 3) {
-                ops.push(format!("sub {key} 0 echo"));
+                ops.push(format!("sub {key} 0 {}", if rng.chance(1, 4) { "dropper" } else { "echo" }));
             } else if !from_used && rng.chance(1, 6) {
                 from_used = true;
                 ops.push(format!("sub {key} {} from", rng.below(nactors)));
@@ -713,6 +738,7 @@ async fn main() {
         }
     }
     st.add("reentrant_pub_inside_converter_call", REPUBS.load(std::sync::atomic::Ordering::SeqCst));
+    st.add("port_dropped_inside_converter_call", MIDDROPS.load(std::sync::atomic::Ordering::SeqCst));
     st.add("lines", log.lines);
     st.write_json(&std::path::Path::new(&out).join("stats.json"));
     log.finish();
